@@ -168,7 +168,8 @@ def check(run, driver):
         "candidate and ordered conditioning set; scripted generator chooses the visiting order). EXHAUSTIVE decision-tree enumeration for "
         "1..3 candidates: all weak orderings of the landscape per round x both verdicts per test x all k! visiting orders; sampled for 4..8 "
         "candidates incl. tie-heavy and NaN landscapes. Every implementation trace is (a) replayed through the Lean model (events and result "
-        "must be identical) and (b) judged by the declarative checker specOK. Non-trivial = at least one acceptance and one rejection"
+        "must be identical) and (b) judged by the declarative checker specOK. (Quick tier: the standard 3-candidate tree with an EMPTY initial "
+        "conditioning set is skipped -- same tree as with two initial ids; thorough runs both.) Non-trivial = at least one acceptance and one rejection"
     )
     thorough = run.tier == "thorough"
     rng = run.rng
